@@ -150,6 +150,27 @@ BinOfCell(g, c) ==
       b == BinGiven(GeomOf(g), << p[2], p[1], p[4], p[3], 0 >>, x.v, x.tp, x.same)
   IN IF b = NoBin THEN NoBin ELSE IF UsedBin(g, b) THEN b ELSE NoBin
 
+\* the same without removal of the gaps (fan sums straight from projection data): every crystal,
+\* virtual ones included
+NoGaps(g) == [g EXCEPT !.vT = 0, !.vA = 0]
+FullFanGeomOf(g) == [R |-> g.R, N |-> g.N, md |-> g.maxSeg, h |-> Hfs(g)]
+
+(* ------- the 2D interface: the detector pairs of one sinogram pair ------ *)
+\* DetPairData of (segment s >= 0, axial position ax) is fan data of a single "ring": entry <<a, b>>,
+\* b in the fan of a of half size H2 (all tangential positions of the data), holds the value of the
+\* bin of the ORDERED crystal pair "a in the first, b in the second ring of the ring pair of (s, ax)":
+\* a bin of segment s when the interleaving lists the pair as <<a, b>>, of segment -s otherwise.
+H2(g) == Max2(g.maxTang, -g.minTang)
+DetPairGeomOf(g) == [R |-> 1, N |-> g.N, md |-> 0, h |-> H2(g)]
+DetPairBin(g, s, ax, a, b) ==
+  LET c == GeomOf(g)
+      rp == CHOOSE x \in RingPairsFast(c, s, ax) : TRUE
+      y == InPlaneFast(g.N, a, b)
+      bin == BinGiven(c, << a, rp[1], b, rp[2], 0 >>, y.v, y.tp, y.same)
+  IN IF ~IsInPlaneOf(c, a, b, y.v, y.tp, y.same) THEN [seg |-> 9998]     \* (cannot happen: theorem M1)
+     ELSE IF bin # NoBin /\ InTangRange(c, bin) THEN bin ELSE NoBin
+DetPairEntryIndex(g, a, b) == a * (2 * H2(g) + 1) + KOf(DetPairGeomOf(g), a, b) + H2(g) + 1
+
 (* --------------------------- exact numbers ----------------------------- *)
 Zero == << 0, 0 >>
 ValAt(V, i) == << V.m[i], V.e[i] >>
@@ -249,6 +270,7 @@ ApplyBlockOk(g, cells, blkOff, F, B, out, apply) ==
   LET bg == BlockGeomOf(g) IN
   \A i \in 1..Len(cells) :
      IF F.m[i] = 0 THEN ValAt(out, i) = Zero
+     ELSE IF ~IsCell(bg, BlockOfCell(g, cells[i])) THEN ValAt(out, i) = ValAt(F, i)    \* no factor stored for this block pair: nothing to apply
      ELSE \E l \in { BlockOfCell(g, cells[i]), SwapCell(BlockOfCell(g, cells[i])) } :
             LET w == ValAt(B, CellIndex(bg, blkOff, l)) IN
             IF apply THEN ValAt(out, i) = Times(ValAt(F, i), w) ELSE IsQuotient(ValAt(out, i), ValAt(F, i), w)
